@@ -12,6 +12,7 @@
    all clock values, SPL and Token-2022 mints with any transfer fee; and lift it to histories of any length. *)
 Require Import Base Constants Fixed Curve Bank BankOps Risk TransferFee Handlers.
 Require Import FixedLemmas BankLemmas AccrualLemmas SolvencyLemmas LedgerLemmas HandlerEffects SolvencyHandlers SolvencyWorld HandlerWorld WorldCheck WorldCheckLemmas.
+Require Import PrivGen Deleverage PurgeLedger.
 Local Open Scope Z_scope.
 
 (* one successful instruction: for every bank, the gap falls by at most the rounding allowance of that
@@ -115,6 +116,18 @@ Proof.
     split; [lia|]. split; [lia|]. constructor; [|constructor]. unfold CurveLemmas.pt_ok. cbn. rewrite ?U32_MAXZ_val. lia.
 Qed.
 
+(* Outside the instruction set of the history theorem: lending_account_purge_delev_balance (risk admin, sunset bank).
+   No token moves and the purged deposits stop being an obligation, so the bank's gap GROWS by exactly the purged asset
+   shares times the asset share value; no other bank changes. (Ledger: C02_purge_keeps_ledger.) *)
+Theorem C01_purge_gap :
+  forall w a b signs w',
+  HLedger w -> dv_purge w a b signs = Ok w' ->
+  exists hb hb' ac i bl,
+    nth_bank w b = Ok hb /\ nth_bank w' b = Ok hb' /\ nth_acct w a = Ok ac /\ nth_res i (ha_la ac) = Ok bl /\
+    gap hb' = gap hb + bl_a bl * b_asv (hb_b hb) /\ gap hb <= gap hb' /\
+    (forall k, k <> b -> nth_bank w' k = nth_bank w k).
+Proof. exact purge_gap. Qed.
+
 Print Assumptions C01_step.
 Print Assumptions C01_allowance_is.
 Print Assumptions C01_accrual_allowance.
@@ -123,3 +136,4 @@ Print Assumptions C01_HOk2_implies_HOk.
 Print Assumptions C01_hypotheses_checkable.
 Print Assumptions C01_history.
 Print Assumptions C01_history_given_wellformed_states.
+Print Assumptions C01_purge_gap.
